@@ -213,6 +213,9 @@ def gen_surface(rng, depth=3, maxar=3):
 # ---------------------------------------------------------------- abstract trees (encoded form)
 
 ATOM_KEYS = ['mit', 'gpl', 'bsd', 'GPL', 'a b', 'x', 'cp', 'lgpl 2.1', 'a', 'b', 'c', 'd']
+# keys that are prefixes of each other, continued by characters sorting before / after ' WITH ' and 'W':
+# the order of symbols must follow the order of their renderings whatever the kind of symbol
+ORDER_KEYS = ['GPL', 'GPL 2', 'GPL 3', 'GPL+', 'GPL-2', 'GPL X', 'GPL W', 'GPL.1', 'a', 'a b', 'a-b', 'a+', 'a WITH b', 'a Z']
 
 
 def gen_atom(rng, keys=ATOM_KEYS, collide=False):
